@@ -51,6 +51,21 @@ def run(chk):
     sh_stream += common.stage_histories(chk, ntraces=16 if q else 96, steps=0, nvars_choices=[0],
                                         profile='zero', tag='zero')     # managers with 0-2 variables
     chk.validate('TraceBDD', 'TraceBDD.cfg', sh_stream)
+    # supports of 54-70 variables: the counting laws (complement, doubling, closed forms) in
+    # big-number arithmetic written in TLA+ (BigNat.tla, TraceBig.tla)
+    from harness.drivers import wide as _wide
+    bt = [dict(shard=chk.shard('big_c10_%d' % i), tid0=10900000 + i * 100, seed=chk.seed * 7 + i,
+               ntraces=2 if q else 30) for i in range(4)]
+    bsh, _ = chk.generate(_wide.big_count_task, bt)
+    chk.validate('TraceBig', 'TraceBig.cfg', bsh)
+
+    def off_by_one(tr):
+        for ev in tr['events']:
+            if ev['cu']:
+                ev['cu'][0] = (ev['cu'][0] + 1) % 10000
+                return 'count(u, n) off by one'
+        raise common.tlcrun.MachineryError('canary: no count')
+    chk.canary('TraceBig', 'TraceBig.cfg', bsh[0], off_by_one, 'sat.count.complement_law')
     common.sweep_canary(chk, sw[0], 'row.count', 'sat.count')
     chk.exhaustive = not q
     chk.assumptions = ['TLC + Json reader', 'adapter reads _succ faithfully',
